@@ -329,3 +329,66 @@ func VH08e_burst() {
 		m.sock.Close()
 	}
 }
+
+// VH08f_wide: many peers on one socket (W = 10; thorough 20). A STAR / XSTAR
+// hub receives one message from one of its W peers (with an arbitrary hop
+// count below the limit) and the application of a BUS / XBUS / STAR / PUB /
+// SURVEYOR socket sends one message of its own: every peer that must get a
+// copy gets exactly one, unchanged -- the eighth, ninth and tenth like the
+// first -- each forwarded copy carries the hop count of the arrival plus one,
+// the origin gets nothing back.
+func VH08f_wide() {
+	W := verif.Param("W", 10)
+	protos := []string{"star", "xstar", "bus", "xbus", "pub", "xpub", "surveyor"}
+	proto := protos[verif.Choice("proto", len(protos))]
+	lab := "C08/wide/" + proto
+	sock := vp.New(proto)
+	side := vt.Listen(sock, "a")
+	var pipes []*vt.Pipe
+	for i := 0; i < W; i++ {
+		pipes = append(pipes, side.Peer("w"+string(rune('a'+i))))
+	}
+	if proto == "star" || proto == "xstar" {
+		src := verif.Choice("src", 3) * (W - 1) / 2 // first, middle or last peer
+		hop := verif.Byte("hop")
+		verif.Assume(hop < 7)
+		body := []byte{'f', verif.Byte("payload")}
+		pipes[src].Deliver(append([]byte{0, 0, 0, hop}, body...))
+		verif.Quiesce()
+		for i, p := range pipes {
+			if i == src {
+				verif.Assert(len(p.Sent) == 0, lab+"/forwarded-back-to-origin")
+				continue
+			}
+			verif.Assert(len(p.Sent) == 1, lab+"/peer-did-not-get-exactly-one-forwarded-copy")
+			if len(p.Sent) == 1 {
+				x := p.Sent[0].Bytes()
+				verif.Assert(len(x) == 6 && verif.BytesEq(x[4:], body), lab+"/forwarded-body-changed")
+				if len(x) == 6 {
+					verif.Assert(x[0] == 0 && x[1] == 0 && x[2] == 0 && x[3] == hop+1, lab+"/forwarded-copy-does-not-carry-arrival-hop-count-plus-one")
+				}
+			}
+		}
+		verif.Reach("wide-forwarded")
+	}
+	base := make([]int, W)
+	for i, p := range pipes {
+		base[i] = len(p.Sent)
+	}
+	own := []byte{'o', verif.Byte("own")}
+	m := mangos.NewMessage(2)
+	m.Body = append(m.Body, own...)
+	if proto == "xstar" {
+		m.Header = append(m.Header, 0, 0, 0, 0)
+	}
+	verif.Assert(sock.SendMsg(m) == nil, lab+"/send-own")
+	verif.Quiesce()
+	for i, p := range pipes {
+		verif.Assert(len(p.Sent) == base[i]+1, lab+"/own-message-not-sent-exactly-once-to-every-peer")
+		if len(p.Sent) == base[i]+1 {
+			verif.Assert(verif.BytesEq(p.Sent[base[i]].B, own), lab+"/own-message-changed")
+		}
+	}
+	verif.Reach("wide-sent")
+	sock.Close()
+}
